@@ -334,6 +334,8 @@ def text_mutations(g, m):
     if m['kind'] != 'pair': out.append(('cutoff_rho_below_half_step', t.replace('nrho : 4\ncutoff_rho : 3.0', 'drho : 0.5\ncutoff_rho : 0.125')))
     if m['kind'] != 'pair':
         out.append(('species_nonnumeric', t + '[Species]\n%s.atomic_mass : heavy\n' % m['els'][0]))
+        for k_, v_ in enumerate(('inf', '-inf', '1e999')):      # twelfth round: a number that float() reads and int() cannot take is malformed, not an arithmetic failure
+            out.append(('species_number_inf%d' % k_, t + '[Species]\n%s.atomic_number : %s\n' % (m['els'][0], v_)))
         out.append(('species_key_without_property', t + '[Species]\n%s : 12.0\n' % m['els'][0]))
         out.append(('species_key_empty_property', t + '[Species]\n%s. : 12.0\n' % m['els'][0]))                 # fix a2c736d
         out.append(('species_key_empty_species', t + '[Species]\n.atomic_mass : 12.0\n'))
@@ -509,7 +511,7 @@ def oracle(case):
         for name, text in text_mutations(g, m):
             r = run_text(text)
             # numeric failures while evaluating a model's functions are not structural; a malformed GRID must never get that far
-            if r[0] == 'Numeric' and not name.startswith(('cutoff_', 'nr_', 'single_row', 'lammps_one_row', 'dlpoly_', 'all_three')): continue
+            if r[0] == 'Numeric' and not name.startswith(('cutoff_', 'nr_', 'single_row', 'lammps_one_row', 'dlpoly_', 'all_three', 'species_number_inf')): continue
             if r[0] != 'CfgErr': fails.append('%s: expected a configuration error, got %s %s' % (name, r[0], r[1] if r[0] != 'Ok' else '(a table was written)'))
     else:
         if got[0] != 'CfgErr': fails.append('%s: expected a configuration error, got %s %s' % (m.get('mutation'), got[0], got[1] if got[0] != 'Ok' else '(a table was written)'))
